@@ -24,6 +24,7 @@ type Config struct {
 	InitLoad       bool   `json:"init_load,omitempty"`  // start by Load from empty storage instead of InitializeWithGenesis
 	Splits         string `json:"splits,omitempty"`     // "": none reachable; "synth": synthetic split table (see splits.go)
 	Invalid        []string `json:"invalid,omitempty"`  // labels configured as invalid header hashes
+	Prefix         int    `json:"prefix,omitempty"`     // a straight chain G/a/a/... of this height is submitted before the explored history starts
 }
 
 // Op is one letter of the alphabet.
@@ -188,6 +189,14 @@ func NewWorld(cfg Config) (*World, error) {
 	for _, l := range cfg.Invalid {
 		w.Marked = append(w.Marked, Get(l).Hash)
 	}
+	label := "G"
+	for i := 0; i < cfg.Prefix; i++ {
+		label += "/a"
+		if st := w.Apply(Op{K: "sub", L: label}); st.Err != "" || st.Panic != "" {
+			return nil, fmt.Errorf("prefix chain at %s: %s %s", label, st.Err, st.Panic)
+		}
+	}
+	w.Steps = nil
 	return w, nil
 }
 
